@@ -44,7 +44,7 @@ ENGINES = {
     },
     "b3sum": {
         "dir": "engines/b3sum", "bin": "vb3",
-        "configs": {"default": []},
+        "configs": {"default": [], "nodebug": ["--profile=nodebug"]},
     },
 }
 
@@ -78,6 +78,11 @@ def c04_runs(tier):
     runs = []
     for cfg in (C04_ALL if tier == "thorough" else C04_QUICK):
         for p in C04_PROPS:
+            if tier == "quick" and cfg in ("pure-all-nodebug", "intr-all") and p == "C02":
+                # the Hasher BFS with every adapter lane costs 11 s on an all-features build; in the quick
+                # tier it runs on the two lean builds here, on asm-all under C02 / C08 and on
+                # pure-all-nodebug under C10; the thorough tier runs it on every build
+                continue
             # thorough: the three diagonal builds run the deep enumerations, the other six the quick ones
             sub = "thorough" if (tier == "thorough" and cfg in C04_QUICK) else "quick"
             runs.append({"engine": "core", "cfg": cfg, "prop": p, "tag": p, "tier": sub})
@@ -142,8 +147,11 @@ PLANS = {
         # the trait-level resetting variants (digest::Reset, *_reset) must also leave the state of a new hasher
         {"engine": "core", "cfg": "asm-all", "prop": "C16", "tag": "traits-reset"},
         {"engine": "core", "cfg": "pure-all-nodebug", "tag": "bfs-nodebug"}]},
-    "C12": {"level": "fault_enumeration", "runs": simple("b3sum", "default")},
-    "C13": {"level": "exploration", "runs": simple("b3sum", "default")},
+    # b3sum with debug assertions / overflow checks on (a panic is a finding) and as it is shipped (without)
+    "C12": {"level": "fault_enumeration", "runs": lambda tier: [
+        {"engine": "b3sum", "cfg": "default", "tag": "checked"}, {"engine": "b3sum", "cfg": "nodebug", "tag": "nodebug"}]},
+    "C13": {"level": "exploration", "runs": lambda tier: [
+        {"engine": "b3sum", "cfg": "default", "tag": "checked"}, {"engine": "b3sum", "cfg": "nodebug", "tag": "nodebug"}]},
     "C14": {"level": "exploration", "runs": with_nodebug("core", "asm-all")},
     "C15": {"level": "exploration", "runs": simple("core", "asm-all")},
     "C16": {"level": "model_checking", "runs": with_nodebug("core", "asm-all")},
